@@ -47,6 +47,12 @@ pipe_destroy(void *arg)
 	p->p_proto_ops.pipe_fini(p->p_proto_data);
 	p->p_tran_ops.p_fini(p->p_tran_data);
 
+	// Only now may the socket and the endpoint forget about us (and go
+	// away themselves): until the last reference was dropped, somebody
+	// who looked the pipe up by id may have been using them through us
+	// (nni_pipe_getopt falls back to the endpoint's options).
+	nni_pipe_remove(p);
+
 	nni_free(p, p->p_size);
 }
 
@@ -79,8 +85,6 @@ pipe_reap(void *arg)
 	NNI_VERIF_PT(NNI_VP_PIPE_REAP_BEFORE_STOP);
 	p->p_proto_ops.pipe_stop(p->p_proto_data);
 	p->p_tran_ops.p_stop(p->p_tran_data);
-
-	nni_pipe_remove(p);
 
 	nni_pipe_rele(p);
 }
